@@ -1,5 +1,6 @@
 """C10 — certificate-hash pinning accepts exactly the pinned, short-lived P-256 leaf."""
 import re
+from rules import shared
 from rulelib import walk, nonpanic, path_sig, event_strs, where, depth_limit, canon, call_sites, mem_fields
 from pathwalk import const_val
 
@@ -87,10 +88,7 @@ def run(ctx):
             sg = [path_sig(p)[1] for p in nonpanic(walk(g))]
             ctx.check("C10-R3", "%s::%s delegates" % (ver, m), sg == ["return %s(message,cert,dss,self.supported_algorithms)" % callee] or (len(sg) == 1 and re.match(r"^return %s\(message,cert,dss,self\.supported_algorithms\)$" % callee, sg[0])),
                       "%s::%s does not delegate to rustls::crypto::%s with self.supported_algorithms: %s" % (ver, m, callee, sg), where(g))
-    g = A.find1(r"^wtransport::tls::client::ServerHashVerification::new$")
-    sg = [path_sig(p)[1] for p in nonpanic(walk(g))]
-    ctx.check("C10-R3", "ServerHashVerification::new keeps exactly the given hashes", len(sg) == 1 and re.match(r"^return ServerHashVerification\(<BTreeSet<T> as FromIterator<T>>::from_iter\(hashes\),default_crypto_provider\(\)\.signature_verification_algorithms\)$", sg[0]) is not None,
-              "ServerHashVerification::new changed: %s" % sg, where(g))
+    shared.hash_pin_set(ctx, "C10-R3")
 
     ctx.rule("C10-R4", "wiring of the trust policies")
     g = A.find1(r"^wtransport::config::ClientConfigBuilder<wtransport::config::states::WantsRootStore>::with_server_certificate_hashes$|^wtransport::config::ClientConfigBuilder::with_server_certificate_hashes$")
